@@ -5,6 +5,10 @@
      op 3  BetaInc grid   : a b cnt { x  x'  status  BetaInc(x,a,b)  BetaInc(x',b,a) }*      x' = float(1-x)
      op 4  GammaInc grid  : a cnt { x  status  GammaInc(a,x)  GammaIncComp(a,x) }*
      op 5  Beta           : cnt { a b Beta(a,b) }*
+     op 6  scan in x      : fn a b lo hi n status cnt { xlo xhi F(xlo) F(xhi) }*    fn 1 BetaInc(.,a,b), 2 GammaInc(a,.), 3 GammaIncComp(a,.)
+   The pairs of op 6 are located by the harness's discontinuity hunt (harness/hb_scan.go) on n cells of
+   [lo,hi]; the first pair is the consecutive grid pair with the smallest increment (decrement for fn 3).
+   Only the reported pairs are judged: xlo < xhi must give F(xlo) <= F(xhi) + 1e-12 (>= for fn 3), values in [0,1].
    floats are IEEE-754 bit patterns; status 0 = returned, 2 = panicked.
    Exact (M1) comparisons: Choose for every (n,k); Sign; BetaInc at integer (a,b) against
    the closed form; Beta at integer/half-integer arguments; special values.  Laws on the
@@ -212,6 +216,20 @@ Fixpoint check_sign (es : list (xreal * xreal)) (i : Z) : option Z :=
   | (x, o) :: t => if xeq (sign_model x) o then check_sign t (i + 1)%Z else Some i
   end.
 
+(* ---------- op 6: monotonicity on the pairs located by the scan ---------- *)
+(* codes: 2 value outside [0,1] / not finite, 3 not monotone in x *)
+Fixpoint check_scan (decreasing : bool) (pts : list (xreal * xreal * xreal * xreal)) (i : Z) : option (Z * Z) :=
+  match pts with
+  | [] => None
+  | (XFin a, XFin b, XFin fa, XFin fb) :: t =>
+      let '(ga, gb) := if decreasing then (fb, fa) else (fa, fb) in    (* ga should be <= gb when a < b *)
+      if negb (in01 fa && in01 fb) then Some (i, 2%Z)
+      else if Qltb a b && negb (Qleb (ga - tol_law) gb) then Some (i, 3%Z)
+      else if Qltb b a && negb (Qleb (gb - tol_law) ga) then Some (i, 3%Z)
+      else check_scan decreasing t (i + 1)%Z
+  | _ :: _ => Some (i, 2%Z)
+  end.
+
 (* ---------- the line ---------- *)
 Local Open Scope Z_scope.
 Inductive c08case :=
@@ -219,7 +237,8 @@ Inductive c08case :=
 | KSign (es : list (xreal * xreal))
 | KBeta (a b : xreal) (pts : list (xreal * xreal * Z * xreal * xreal))
 | KGamma (a : xreal) (pts : list (xreal * Z * xreal * xreal))
-| KBetaFn (es : list (xreal * xreal * xreal)).
+| KBetaFn (es : list (xreal * xreal * xreal))
+| KScan (fn : Z) (a b lo hi : Q) (n status : Z) (pts : list (xreal * xreal * xreal * xreal)).
 
 Definition p_line : parser c08case :=
   do id <- pZ; if negb (id =? 8) then (fun _ => None) else
@@ -231,6 +250,9 @@ Definition p_line : parser c08case :=
                         pend (KBeta a b pts))
   else if op =? 4 then (do a <- pX; do pts <- plist (do x <- pX; do s <- pZ; do p <- pX; do q <- pX; pret (x, s, p, q)); pend (KGamma a pts))
   else if op =? 5 then (do es <- plist (do a <- pX; do b <- pX; do o <- pX; pret (a, b, o)); pend (KBetaFn es))
+  else if op =? 6 then (do fn <- pZ; do a <- pQ; do b <- pQ; do lo <- pQ; do hi <- pQ; do n <- pZ; do st <- pZ;
+                        do pts <- plist (do u <- pX; do v <- pX; do fu <- pX; do fv <- pX; pret (u, v, fu, fv));
+                        pend (KScan fn a b lo hi n st pts))
   else (fun _ => None).
 
 (* tags: 64*op + branch bits.
@@ -238,6 +260,7 @@ Definition p_line : parser c08case :=
    op 3: +1 closed form compared, +2 direct branch, +4 reflected branch, +8 NaN domain, +16 end value, +32 NaN x
    op 4: +2 series, +4 continued fraction, +8 NaN domain, +16 x = 0
    op 5: +1 exact (half-)integer comparison, +2 law-only
+   op 6 (384): +1 BetaInc / +2 GammaInc / +3 GammaIncComp scan in x, +4 a candidate jump was located and judged
    tag 0 is never produced by a well-formed case except an empty list *)
 Definition check_C08 (line : list Z) : list Z :=
   match p_line line with
@@ -272,4 +295,16 @@ Definition check_C08 (line : list Z) : list Z :=
       | (tag, None) => verdict V_OK (320 + tag) (-1) []
       | (tag, Some (i, e)) => verdict V_MISMATCH (320 + tag) i (qdiag e)
       end
+  | Some (KScan fn a b lo hi n st pts, _) =>
+      if negb ((1 <=? fn) && (fn <=? 3) && Qltb 0 a && Qltb lo hi && (8 <=? n)) then verdict V_MALFORMED 0 (-1) [] else
+      (* +4: the hunt located at least one candidate jump besides the smallest grid increment *)
+      let tag := 384 + fn + (if 2 <=? Z.of_nat (length pts) then 4 else 0) in
+      if negb (st =? 0) then verdict V_MISMATCH tag (-1) [7]        (* a panic inside the stated parameter range *)
+      else match pts with
+           | [] => verdict V_MISMATCH tag (-1) [2]
+           | _ => match check_scan (fn =? 3) pts 0 with
+                  | Some (i, c) => verdict V_MISMATCH tag i [c]
+                  | None => verdict V_OK tag (-1) []
+                  end
+           end
   end.
